@@ -14,6 +14,7 @@ import rx
 from ..common import Check, Outcome, Snap, subscribe, subscribe2, bootstrap, norm, WORK
 
 rs = bootstrap()
+from ..progs import call          # noqa: E402  (positional / keyword calling conventions, see progs.call)
 import rxsci.framing.line as line                      # noqa: E402
 
 STR_ALPHA = {
@@ -193,13 +194,13 @@ class C19(Check):
             path = os.path.join(self._tmpdir(), 'w.json')
             if os.path.exists(path):
                 os.unlink(path)
-            w = subscribe(rx.from_(objs).pipe(J.dump_to_file(path, compression=comp)), Snap())
+            w = subscribe(rx.from_(objs).pipe(call(J.dump_to_file, [('filename', path), ('newline', '\n'), ('encoding', 'utf-8'), ('compression', comp)])), Snap())
             if w.err is not None or not w.done:
                 return out.fail('dump_to_file-failed', error=repr(w.err), done=w.done)
             if not os.path.exists(path):
                 return out.fail('dump_to_file-completed-without-creating-the-file', objects=len(objs), compression=comp)
             size = os.path.getsize(path)
-            got = subscribe2(J.load_from_file(path, lines=False, compression=comp), out, 'load_from_file(lines=False)', same=lambda x, y: repr(x) == repr(y))
+            got = subscribe2(call(J.load_from_file, [('filename', path), ('lines', False), ('skip', 0), ('ignore_error', False), ('encoding', 'utf-8'), ('compression', comp)]), out, 'load_from_file(lines=False)', same=lambda x, y: repr(x) == repr(y))
             out.tags.append('whole-document')
         else:
             size = None
@@ -218,41 +219,41 @@ class C19(Check):
                     path2 = os.path.join(self._tmpdir(), 'twin.json')
                     if os.path.exists(path2):
                         os.unlink(path2)
-                    w = dump_pushed(lambda o: o.pipe(J.dump_to_file(path, compression=comp)), objs, path, out, 'json.dump_to_file',
-                                    twin=lambda o: o.pipe(J.dump_to_file(path2, compression=comp)))
+                    w = dump_pushed(lambda o: o.pipe(call(J.dump_to_file, [('filename', path), ('newline', '\n'), ('encoding', 'utf-8'), ('compression', comp)])), objs, path, out, 'json.dump_to_file',
+                                    twin=lambda o: o.pipe(call(J.dump_to_file, [('filename', path2), ('newline', '\n'), ('encoding', 'utf-8'), ('compression', comp)])))
                     if out.failures:
                         return out
                     # the twin dump - same codec, another file, alive at the same time - must hold the same objects
-                    tw = subscribe(J.load_from_file(path2, compression=comp), Snap())
+                    tw = subscribe(call(J.load_from_file, [('filename', path2), ('lines', True), ('skip', 0), ('ignore_error', False), ('encoding', 'utf-8'), ('compression', comp)]), Snap())
                     out.observed['twin_dumps_read_back'] += 1
                     if tw.err is not None or not tw.done or repr(tw.out) != repr(objs):
                         return out.fail('a-second-dump-alive-at-the-same-time-differs', error=repr(tw.err), n_got=len(tw.out), n_want=len(objs), compression=comp)
                 else:
-                    w = subscribe(rx.from_(objs).pipe(J.dump_to_file(path, compression=comp)), Snap())
+                    w = subscribe(rx.from_(objs).pipe(call(J.dump_to_file, [('filename', path), ('newline', '\n'), ('encoding', 'utf-8'), ('compression', comp)])), Snap())
                 if w.err is not None or not w.done:
                     return out.fail('dump_to_file-failed', error=repr(w.err), done=w.done)
                 if not os.path.exists(path):
                     return out.fail('dump_to_file-completed-without-creating-the-file', objects=len(objs), compression=comp)
                 size = os.path.getsize(path)
-                got = subscribe2(J.load_from_file(path, compression=comp), out, 'load_from_file', same=lambda x, y: repr(x) == repr(y))
+                got = subscribe2(call(J.load_from_file, [('filename', path), ('lines', True), ('skip', 0), ('ignore_error', False), ('encoding', 'utf-8'), ('compression', comp)]), out, 'load_from_file', same=lambda x, y: repr(x) == repr(y))
             elif mode == 'fileobj':
                 path = os.path.join(self._tmpdir(), 'g.json')
                 with open(path, 'wb') as f:
-                    w = subscribe(rx.from_(objs).pipe(J.dump_to_file(f, compression=comp)), Snap())
+                    w = subscribe(rx.from_(objs).pipe(call(J.dump_to_file, [('filename', f), ('newline', '\n'), ('encoding', 'utf-8'), ('compression', comp)])), Snap())
                 if w.err is not None or not w.done:
                     return out.fail('dump_to_file-failed', error=repr(w.err), done=w.done)
                 size = os.path.getsize(path)
                 with open(path, 'rb') as f:
-                    got = subscribe(J.load_from_file(f, compression=comp), Snap())
+                    got = subscribe(call(J.load_from_file, [('filename', f), ('lines', True), ('skip', 0), ('ignore_error', False), ('encoding', 'utf-8'), ('compression', comp)]), Snap())
             else:
                 fs = MemFS()
-                w = subscribe(rx.from_(objs).pipe(J.dump_to_file('mem.json', compression=comp, open_obj=fs.open)), Snap())
+                w = subscribe(rx.from_(objs).pipe(call(J.dump_to_file, [('filename', 'mem.json'), ('newline', '\n'), ('encoding', 'utf-8'), ('compression', comp), ('open_obj', fs.open)])), Snap())
                 if w.err is not None or not w.done:
                     return out.fail('dump_to_file-failed', error=repr(w.err), done=w.done)
                 if 'mem.json' not in fs.files:
                     return out.fail('open_obj-file-never-closed', calls=fs.calls)
                 size = len(fs.files['mem.json'])
-                got = subscribe(J.load_from_file('mem.json', compression=comp, open_obj=fs.open), Snap())
+                got = subscribe(call(J.load_from_file, [('filename', 'mem.json'), ('lines', True), ('skip', 0), ('ignore_error', False), ('encoding', 'utf-8'), ('compression', comp), ('open_obj', fs.open)]), Snap())
                 if len(fs.calls) != 2:
                     return out.fail('open_obj-not-used-for-both', calls=fs.calls)
             if w.out:
